@@ -272,7 +272,7 @@ func G3LateUnregister(p *sut.Proc) *Result {
 		must(err)
 		cr.Barrier()
 		if !snap.Found || snap.Join.SessionUuid != jr.SessionUuid {
-			r.Findings = append(r.Findings, f([]string{"C07", "C10"}, "registry/live-session-unregistered", trig,
+			r.Findings = append(r.Findings, f([]string{"C07", "C10", "C03"}, "registry/live-session-unregistered", trig,
 				"a session created while a second, late unregistration of the ended session was pending (id %s, uuid %s) cannot be found afterwards (found=%v code=%d): the late unregistration removed the wrong session", jr.SessionId, jr.SessionUuid, snap.Found, snap.Code))
 		}
 		// a further creation must not be given the id of the live session
@@ -613,7 +613,7 @@ func G3cLastLeaveVsCreate(p *sut.Proc) *Result {
 		must(err)
 		cr.Barrier()
 		if !snap.Found || snap.Join.SessionUuid != jr.SessionUuid {
-			r.Findings = append(r.Findings, f([]string{"C07", "C10"}, "registry/live-session-unregistered", trig,
+			r.Findings = append(r.Findings, f([]string{"C07", "C10", "C03"}, "registry/live-session-unregistered", trig,
 				"a session created while the last departure of another session (id %s) was in progress got id %s uuid %s and cannot be found afterwards (found=%v code=%d)", l.SID, jr.SessionId, jr.SessionUuid, snap.Found, snap.Code))
 			return
 		}
